@@ -261,6 +261,11 @@ def run(ctx: Ctx) -> RuleResult:
     from ..exprs import as_less
     okm = any(as_less(n) is not None and as_less(n)[1] == '<' and norm(as_less(n)[0]).endswith('.start()') and norm(as_less(n)[2]).endswith('.start()')
               for n in st.body_nodes() if isinstance(n, ast.Compare))
+    # (or the builtin: min over the .start() of the matches)
+    okm = okm or any(isinstance(n, ast.Call) and isinstance(n.func, ast.Name) and n.func.id == 'min' and (
+        '.start()' in norm(n) or any(isinstance(a_, ast.Name) and any(
+            isinstance(d_, (ast.Assign, ast.Expr)) and '.start()' in norm(d_) and a_.id in norm(d_) for d_ in st.body_nodes() if isinstance(d_, (ast.Assign, ast.Expr)))
+            for a_ in n.args)) for n in st.body_nodes())
     res.ob('%s %s' % (st.loc(), st.qual), 'the earliest match over all regex chunks is taken', okm)
     if not okm:
         res.finding(st, st.node, 'Scanner.search does not take the minimum start over its regex chunks', construct='search-min')
